@@ -33,9 +33,17 @@ LIT_VARIANTS = {"lit_float": ["", "neg", "imag", "cplx", "ncplx"], "lit_int": ["
 class Builder:
     """Builds small abstract trees and their intended canonical trees."""
 
+    inst_prec = None  # callable(class name, number of operands) -> int | None, set by the rule: precedence assigned per instance in __init__
+
     def __init__(self, classes: dict[str, LClass]):
         self.classes = classes
         self.count = itertools.count()
+
+    def _inst(self, c: LClass, n_ops: int) -> dict:
+        if Builder.inst_prec is None:
+            return {}
+        p_ = Builder.inst_prec(c.name, n_ops)
+        return {} if p_ is None else {"precedence": p_}
 
     def sym(self, name=None) -> ANode:
         name = name or f"s{next(self.count)}"
@@ -65,8 +73,8 @@ class Builder:
         if k in ("bin", "assign"):
             return ANode(c, {"lhs": kid(0), "rhs": kid(1)}, tag)
         if k == "nary":
-            n = 3 if variant == "3" else 2
-            return ANode(c, {"args": [kid(i) for i in range(n)]}, tag)
+            n = {"3": 3, "1": 1}.get(variant, 2)
+            return ANode(c, {"args": [kid(i) for i in range(n)]}, tag, self._inst(c, n))
         if k == "unary":
             return ANode(c, {"arg": kid(0)}, tag)
         if k == "cond":
@@ -76,8 +84,9 @@ class Builder:
         if k == "call":
             return ANode(c, {"function": Str(["fn"]), "args": [kid(0), kid(1)]}, tag)
         if k == "multiindex":
-            gi = ANode(self.classes["Sum"], {"args": [kid(0), kid(1)]}, tag + "g")
-            return ANode(c, {"global_index": gi}, tag)
+            n = {"1": 1}.get(variant, 2)
+            gi = ANode(self.classes["Sum"], {"args": [kid(i) for i in range(n)]}, tag + "g", self._inst(self.classes["Sum"], n))
+            return ANode(c, {"global_index": gi}, tag, self._inst(c, n))
         raise AnalysisError(f"Builder: cannot instantiate {c.name} ({k})")
 
     def positions(self, c: LClass, variant="") -> list[str]:
@@ -137,6 +146,49 @@ def constructible(parent: LClass, pos: str, child: LClass) -> bool:
     return True
 
 
+def _instance_precedence(repo, classes):
+    """-> f(class name, number of operands): the precedence an instance gets when a method of the class (or of a base) assigns
+    `self.precedence`; the constructor is interpreted on symbol operands. None when the class never assigns it per instance."""
+    from ..absint import Interp, Node as INode, Raised
+
+    lm = repo.mod("ffcx.codegeneration.lnodes")
+    assigning = set()
+    for q, f in lm.funcs.items():
+        if "." not in q:
+            continue
+        cname = q.split(".")[0]
+        for n in walk_no_nested(f.node):
+            if isinstance(n, (ast.Assign, ast.AugAssign, ast.AnnAssign)):
+                for t in (n.targets if isinstance(n, ast.Assign) else [n.target]):
+                    if isinstance(t, ast.Attribute) and t.attr == "precedence" and isinstance(t.value, ast.Name) and t.value.id == "self":
+                        assigning.add(cname)
+    cache = {}
+
+    def get(cname, n_ops):
+        chain = [cname] + (classes[cname].bases if cname in classes else [])
+        if not any(c in assigning for c in chain):
+            return None
+        if (cname, n_ops) not in cache:
+            it = Interp(repo, classes)
+            it.prec = precedence_table(repo)
+            syms = [it.construct("Symbol", [f"i{k}", "DataType.INT"], {}) for k in range(n_ops)]
+            kind = classes[cname].kind
+            try:
+                if kind == "multiindex":
+                    obj = it.construct(cname, [syms, [3] * n_ops], {})
+                elif kind == "nary":
+                    obj = it.construct(cname, [syms], {})
+                else:
+                    obj = it.construct(cname, syms, {})
+            except Raised as e:
+                raise AnalysisError(f"{cname} assigns self.precedence per instance and its constructor raises on symbol operands ({e.what})")
+            v = obj.f.get("precedence")
+            cache[(cname, n_ops)] = v if isinstance(v, int) else None
+        return cache[(cname, n_ops)]
+
+    return get
+
+
 @rule(
     "PREC-GRAMMAR",
     ["C16", "C18", "C09"],
@@ -151,6 +203,7 @@ def prec_grammar(repo, res, backends=("C", "numba"), props_by_backend=None):
     classes = load_classes(repo)
     exprs = concrete_expr_classes(classes)
     props_by_backend = props_by_backend or {"C": ("C16", "C09"), "numba": ("C16", "C18")}
+    Builder.inst_prec = _instance_precedence(repo, classes)
     for be in backends:
         modname, parser = BACKENDS[be]
         table = HandlerTable(repo, modname)
@@ -215,6 +268,53 @@ def prec_grammar(repo, res, backends=("C", "numba"), props_by_backend=None):
                                     modname.replace(".", "/") + ".py",
                                     props=props_by_backend[be],
                                 )
+        # depth 3 through "transparent" nodes: a Sum / Product with a single operand and a one-dimensional MultiIndex print as the text of
+        # their operand, whatever that operand is - the induction over (parent, child) pairs does not cover them, so every
+        # (outer parent, position, transparent node, operand class) is rendered and read back as well
+        wrappers = [(classes[n_], "1") for n_ in ("Sum", "Product") if n_ in classes] + [(c_, "1") for c_ in exprs if c_.kind == "multiindex"]
+        for P in exprs:
+            if P.kind in ("symbol", "lit_float", "lit_int", "multiindex", "assign"):
+                continue
+            for pos in Builder(classes).positions(P, ""):
+                for W, wv in wrappers:
+                    if not constructible(P, pos, W):
+                        continue
+                    for C in exprs:
+                        if C.kind in ("assign", "multiindex") or not typed(C):
+                            continue
+                        if W.kind == "multiindex" and C.kind == "lit_float":
+                            continue  # index expressions are INT
+                        for cv in (LIT_VARIANTS[C.kind] if C.kind in LIT_VARIANTS else [""]):
+                            key = f"{be}:{P.name}:{pos}:{W.name}1({C.name}{cv})"
+                            res.ob(key)
+                            bb = Builder(classes)
+                            inner = bb.make(C, variant=cv)
+                            wrap = bb.make(W, [inner], variant=wv)
+                            m_ = re.match(r"([a-z_]+?)(\d+)?$", pos)
+                            attr, idx = m_.group(1), m_.group(2)
+                            nkids = {"bin": 2, "nary": 2, "unary": 1, "cond": 3, "access": 2, "call": 2}[P.kind]
+                            order = {"bin": ["lhs", "rhs"], "unary": ["arg"], "cond": ["condition", "true", "false"]}.get(P.kind)
+                            kids = [None] * nkids
+                            if order:
+                                kids[order.index(attr)] = wrap
+                            else:
+                                kids[int(idx)] = wrap
+                            tree = bb.make(P, kids)
+                            want = strip_call_name(canon(bb.intended(tree, opmap)))
+                            try:
+                                text = render(ev, tree)
+                            except AnalysisError as e:
+                                raise AnalysisError(f"{key}: {e}") from e
+                            try:
+                                got = strip_call_name(canon(parser(text)))
+                            except ParseError as e:
+                                res.fail(key, f"{be} formatter emits `{text.strip()}` for {P.name}({pos} = one-operand {W.name} of a {C.name}{' ' + cv if cv else ''}); the {be} "
+                                         f"grammar rejects it: {e}", modname.replace(".", "/") + ".py", props=props_by_backend[be])
+                                continue
+                            if got != want:
+                                res.fail(key, f"{be} formatter emits `{text.strip()}` for {P.name}({pos} = one-operand {W.name} of a {C.name}{' ' + cv if cv else ''}); read back by "
+                                         f"the {be} grammar it is {got}, intended {want}: a node that prints as the bare text of its operand must bind like that operand",
+                                         modname.replace(".", "/") + ".py", props=props_by_backend[be])
         # leaves and unary chains at top level must at least parse
         for C in exprs:
             key = f"{be}:top:{C.name}"
